@@ -44,20 +44,22 @@ server's clock. -/
 theorem coherent_fetch_abs {cl0 : Cluster} (hf : Fresh cl0) (ops : List Op) (hlen : ops.length < 2 ^ 64)
     (c : Nat) (nowC nowS : Time) (k : Key) (tags : Bool) (v : Val) (ts : List Key) (d : Time) (g : Gen)
     (hit : (astep (arun cl0 ops) (.fetch c nowC nowS k tags)).2 = .hit v ts d g) :
-    ∃ e, home (arun cl0 ops) k = some e ∧ e.val = v ∧ e.deadline = d ∧ e.gen = g ∧ ¬ d < nowS := by
+    ∃ e, home (arun cl0 ops) k = some e ∧ e.val = v ∧ e.deadline = d ∧ e.gen = g ∧ ¬ d < nowS ∧
+      (tags = true → ∀ t ∈ backTrigs e.trigs, t ∈ ts) := by
   have hinv := cinv_run hf ops hlen
   have horg := (fetchOp_spec hinv.invs c nowC nowS k tags).2 v ts d g hit
   cases horg with
-  | fresh e h hv hd hg hl => exact ⟨e, h, hv, hd, hg, hl⟩
-  | confirmed eL es hL hv hd hg hs hsg hl =>
-    obtain ⟨e', hw, r1, r2, r3⟩ := hinv.l1 c k eL hL
+  | fresh e h hv hd hg hl htr => exact ⟨e, h, hv, hd, hg, hl, htr⟩
+  | confirmed eL es hL hv hd hg hs hsg hl htr =>
+    obtain ⟨e', hw, r1, r2, r3, r4⟩ := hinv.l1 c k eL hL
     have hws : Was cl0 ops (shard cl0.servers.length k) k es := by
       apply was_cur
       simp only [home, hinv.len] at hs
       exact hs
     obtain ⟨_, he⟩ := hinv.uniq _ k k e' es hw hws (by rw [r3, hg, hsg])
     subst he
-    exact ⟨e', hs, by rw [r1, hv], by rw [r2, hd], hsg, by rw [← hd, ← r2]; exact hl⟩
+    exact ⟨e', hs, by rw [r1, hv], by rw [r2, hd], hsg, by rw [← hd, ← r2]; exact hl,
+      fun ht t hm => by rw [htr ht]; exact r4 t hm⟩
 
 /-- the same, as "a direct fetch on the responsible server answers the same" -/
 theorem coherent_fetch_server_abs {cl0 : Cluster} (hf : Fresh cl0) (ops : List Op) (hlen : ops.length < 2 ^ 64)
@@ -65,7 +67,7 @@ theorem coherent_fetch_server_abs {cl0 : Cluster} (hf : Fresh cl0) (ops : List O
     (hit : (astep (arun cl0 ops) (.fetch c nowC nowS k tags)).2 = .hit v ts d g) :
     ∃ s, (arun cl0 ops).servers[shard cl0.servers.length k]? = some s ∧
       ∃ ts', (C07.step s (.fetch nowS k)).2 = .hit v ts' d g := by
-  obtain ⟨e, he, hv, hd, hg, hl⟩ := coherent_fetch_abs hf ops hlen c nowC nowS k tags v ts d g hit
+  obtain ⟨e, he, hv, hd, hg, hl, _⟩ := coherent_fetch_abs hf ops hlen c nowC nowS k tags v ts d g hit
   simp only [home, arun_length] at he
   cases hs : (arun cl0 ops).servers[shard cl0.servers.length k]? with
   | none => rw [sabs_none hs] at he; cases he
@@ -81,8 +83,9 @@ theorem coherent_fetch_ideal_abs (sl : List Nat) (ll : List (Option Nat)) (ops :
     (hwf : HistWF ops)
     (c : Nat) (nowC nowS : Time) (k : Key) (tags : Bool) (v : Val) (ts : List Key) (d : Time) (g : Gen)
     (hit : (astep (arun (Cluster.init sl ll) ops) (.fetch c nowC nowS k tags)).2 = .hit v ts d g) :
-    ∃ e, idealOf ops k = some e ∧ e.val = v ∧ e.deadline = d ∧ ¬ d < nowS := by
-  obtain ⟨e, he, hv, hd, hg, hl⟩ :=
+    ∃ e, idealOf ops k = some e ∧ e.val = v ∧ e.deadline = d ∧ ¬ d < nowS ∧
+      (tags = true → KeysNulFree ops → ∀ t ∈ e.trigs, t ∈ ts) := by
+  obtain ⟨e, he, hv, hd, hg, hl, htr⟩ :=
     coherent_fetch_abs (fresh_init sl ll) ops hlen c nowC nowS k tags v ts d g hit
   simp only [home, arun_length] at he
   generalize hi : shard (Cluster.init sl ll).servers.length k = i at he
@@ -103,7 +106,14 @@ theorem coherent_fetch_ideal_abs (sl : List Nat) (ll : List (Option Nat)) (ops :
       have hspec := hsub k e he
       have hrel := rel_run (Cluster.init sl ll).servers.length i ops hwf (State.init lim none) C07.Spec.empty C07.Spec.empty
         (by intro k e _ h; simp [C07.Spec.empty] at h)
-      obtain ⟨e', h1, h2, h3, _⟩ := hrel k e hi hspec
-      exact ⟨e', h1, by rw [h2, hv], by rw [h3, hd], hl⟩
+      obtain ⟨e', h1, h2, h3, h4⟩ := hrel k e hi hspec
+      refine ⟨e', h1, by rw [h2, hv], by rw [h3, hd], hl, ?_⟩
+      intro ht hkn t hm
+      -- the ideal entry's names are NUL-free, hence so are the server entry's: they come back unchanged
+      have hnf := ideal_nulfree ops hwf hkn C07.Spec.empty (by intro k e h; simp [C07.Spec.empty] at h)
+      have hnul : ∀ t ∈ e.trigs, (0 : UInt8) ∉ t := fun t' ht' => hnf k e' h1 t' ((h4 t').mpr ht')
+      apply htr ht
+      rw [backTrigs_nulfree e.trigs hnul]
+      exact mem_sortSet.mpr ((h4 t).mp hm)
 
 end Cppcms.C10
